@@ -8,6 +8,9 @@
     c03.spec.strip script               Spec.scriptCodeNoSep        → hex
     c03.spec.ops   script               Spec.ops                    → hex,hex,… | noparse
     c03.iswit      script               Model.isWitnessScriptPubKey → true | false | err:<family>
+    c03.hist       script q1 q2 …       one history on one line: each q = algo@tx@idx@ht@amount with
+                                        algo ∈ raw | wrap | v0 (amount `-` for raw/wrap); the existing models
+                                        evaluated on each successive transaction value → r1,r2,…
 -/
 import Driver.Util
 import Driver.TxFmt
@@ -19,6 +22,36 @@ open BtcVerif Driver
 
 def renderRaw (d : Bytes) (err : Bool) : String :=
   if err then (if d = Model.Sighash.HASH_ONE then "one:err" else toHex d ++ ":err") else toHex d
+
+/-- one query of a history: the model of the named entry point on the given (current) transaction value -/
+def histQuery (sc : Bytes) (q : String) : Option String :=
+  match q.splitOn "@" with
+  | [algo, tx, idx, ht, am] => do
+      let tx ← TxFmt.parseTx? tx
+      let idx ← parseNat? idx
+      let ht ← parseInt? ht
+      if algo == "raw" then
+        pure (match Model.Sighash.rawSignatureHash sc tx idx ht with
+              | .ok (d, e) => renderRaw d e
+              | .error e => "err:" ++ e.family)
+      else if algo == "wrap" then
+        pure (Res.render ((Model.Sighash.signatureHashBase sc tx idx ht).map toHex))
+      else if algo == "v0" then do
+        let am ← if am == "none" then some none else (parseInt? am).map some
+        pure (Res.render ((Model.Sighash.signatureHashWitnessV0 sc tx idx ht am).map toHex))
+      else none
+  | _ => none
+
+def histReply (args : List String) : String :=
+  match args with
+  | sc :: qs =>
+      (match parseHex? sc with
+       | some sc =>
+           (match qs.mapM (histQuery sc) with
+            | some rs => joinWith "," rs
+            | none => badArgs)
+       | none => badArgs)
+  | [] => badArgs
 
 def handle (op : String) (args : List String) : Option String :=
   match op, args with
@@ -55,6 +88,7 @@ def handle (op : String) (args : List String) : Option String :=
            | some l => joinWith "," (l.map toHex)
            | none => "noparse")
       | none => badArgs
+  | "c03.hist", args => some (histReply args)
   | "c03.iswit", [sc] => some <|
       match parseHex? sc with
       | some sc => Res.render ((Model.Sighash.isWitnessScriptPubKey sc).map toString)
